@@ -351,6 +351,17 @@ class CliWorld(ChainWorld):
         self.nfile = 0
         script = os.path.join(os.path.dirname(PY), "conda-content-trust")
         self.script = script if os.path.exists(script) else None
+        # two honest rotations up front, so that valid successor pairs exist from the first operation on
+        for step in range(2):
+            cur = self._cur_root_idx(self.head)
+            nxt = cur if step == 0 else (cur[1:] + [min(len(self.keys) - 1, max(cur) + 1)] if len(cur) > 1 else cur)
+            nxt = sorted(set(nxt))
+            self.op_ceremony_start({"root": nxt, "t": max(1, len(nxt) - step), "km": [len(self.keys) - 1], "km_t": 1, "version": "next"})
+            if self.staged is None:
+                break
+            for i in sorted(set(cur) | set(nxt)):
+                self._pgp_sign(self.staged["doc"], i, "simgpg")
+            self.op_publish({})
 
     def close(self):
         super().close()
@@ -529,6 +540,71 @@ class CliWorld(ChainWorld):
             self.run.violate(("C17", "C18"), "sign-nonzero-but-file-changed", "sign-artifacts exited %d but changed the file" % p.returncode,
                              "sign-nonzero-but-file-changed")
 
+    def op_cli_gpg(self, op):
+        """gpg-sign / gpg-key-lookup as real processes: stub securesystemslib on PYTHONPATH (or absent), real gpg binary."""
+        import pgp
+        b = pgp.RealGpg.get(REPO)
+        if not b.ok:
+            self.run.probe("real_gpg_leg_skipped")
+            return self.run.ev("noop")
+        k = b.keys[op.get("gkey", 0) % len(b.keys)]
+        fpr = {"good": k["fpr"], "upper": k["fpr"].upper(), "spaced": " ".join(k["fpr"][i:i + 4] for i in range(0, 40, 4)).upper(),
+               "unknown": "ab" * 20, "short": k["fpr"][:-2], "nonhex": "zz" + k["fpr"][2:]}[op.get("fpr", "good")]
+        self.nfile += 1
+        path = os.path.join(self.scratch, "g%d.json" % self.nfile)
+        E = {"signatures": {}, "signed": op["payload"]}
+        from world_storage import dump_as
+        before = dump_as(E, op.get("fmt", "canon")) if "raw" not in op else op["raw"].encode()
+        with open(path, "wb") as f:
+            f.write(before)
+        cfg = op["cfg"]
+        extra = {"GNUPGHOME": b.home, "VERIF_GPG_TIME": str(1700000000 + int(self.clock) % 10**8)}
+        env = child_env(cfg, extra)
+        if op.get("with_stub", True):
+            env["PYTHONPATH"] = REPO + os.pathsep + os.path.join(HERE, "stubs")
+        if op.get("sub") == "lookup":
+            cmd = self._cmd(op["entry"], ["gpg-key-lookup", fpr], cfg)
+        else:
+            cmd = self._cmd(op["entry"], ["gpg-sign", fpr, path], cfg)
+        p = subprocess.run(cmd, env=env, cwd=self.scratch, capture_output=True, timeout=120)
+        self.run.probe("process_spawned")
+        self.run.probe("entry_" + op["entry"])
+        self.run.probe("cli_gpg_" + op.get("sub", "sign"))
+        out = p.stdout.decode("utf-8", "replace")
+        if op.get("sub") == "lookup":
+            ok = k["q"] in out
+            self.run.ev("cli_gpg_lookup", op["entry"], op.get("fpr"), p.returncode, ok)
+            if p.returncode == 0 and not ok:
+                self.run.violate(("C17",), "lookup-exit-zero-without-key", "gpg-key-lookup exited 0 without reporting the key value",
+                                 "lookup-exit-zero-without-key:" + op["entry"])
+            return
+        after = open(path, "rb").read()
+        signed = False
+        try:
+            cur = json.loads(after)
+            if after != before:
+                o = self.calls.call("verify_signable", cur, [k["q"]], 1, gpg=True)
+                signed = o.ok and refcanon(cur["signed"]) == refcanon(op["payload"]) and after == refcanon(cur)
+        except (ValueError, KeyError, TypeError):
+            signed = False
+        good = op.get("with_stub", True) and op.get("fpr", "good") in ("good", "upper", "spaced") and "raw" not in op
+        self.run.ev("cli_gpg_sign", op["entry"], op.get("fpr"), op.get("with_stub", True), p.returncode, signed)
+        self.run.fp("cli_gpg", op["entry"], op.get("fpr"), op.get("with_stub", True), p.returncode, signed)
+        if signed:
+            self.run.accepts += 1
+        else:
+            self.run.rejects += 1
+        self.run.fault("gpg_input_%s_%s" % (op.get("fpr"), "stub" if op.get("with_stub", True) else "nostub"))
+        if p.returncode == 0 and not signed:
+            self.run.violate(("C17",), "sign-exit-zero-without-signing", "`%s gpg-sign` exited 0 but the file carries no valid OpenPGP signature by that key (%s)"
+                             % (op["entry"], op.get("fpr")), "gpg-sign-exit-zero-without-signing:" + op["entry"])
+        elif p.returncode != 0 and good:
+            self.run.violate(("C17", "C10"), "sign-good-input-nonzero", "`%s gpg-sign` exited %d with a usable key and file: %s"
+                             % (op["entry"], p.returncode, p.stderr.decode("utf-8", "replace")[-300:]), "gpg-sign-good-input-nonzero:" + op["entry"])
+        elif p.returncode != 0 and after != before:
+            self.run.violate(("C17", "C18"), "sign-nonzero-but-file-changed", "gpg-sign exited %d but changed the file" % p.returncode,
+                             "gpg-sign-nonzero-but-file-changed")
+
     # ---------------------------------------------------------------- generator
     def gen(self, rng):
         nk = len(self.keys)
@@ -536,6 +612,13 @@ class CliWorld(ChainWorld):
         cfg = gen_cfg(rng)
         if cfg["ioenc"] == "utf-16":
             cfg["ioenc"] = ""
+        if r < 0.06:
+            op = {"op": "cli_gpg", "entry": rng.choice(ENTRIES), "cfg": cfg, "payload": gen.gen_payload(rng, True), "gkey": rng.randrange(6),
+                  "fpr": rng.choice(["good", "good", "good", "upper", "spaced", "unknown", "short", "nonhex"]),
+                  "with_stub": rng.random() < 0.8, "fmt": rng.choice(["canon", "compact", "crlf"]), "sub": rng.choice(["sign", "sign", "sign", "lookup"])}
+            if rng.random() < 0.1:
+                op["raw"] = rng.choice(["", "{", "[]", "{\"signed\": 1}"])
+            return op
         if r < 0.45:
             # a CLI verification of some pair
             ts = [["chain", i] for i in range(len(self.honest_chain))] + [["trusted", 0]]
